@@ -685,6 +685,8 @@ def _render_int(I, t):
         neg = I.decide(t < 0)
     s, cons = sstr.render_int(-t if neg else t, nd)
     I.add_side(cons)
+    if neg:
+        s.segs[0].int_neg = t
     return mk(["-", s]) if neg else s
 
 
@@ -951,7 +953,7 @@ def _strip_impl(I, s, chars, left, right):
         en = If(Lt(en, st), st, en) if not (isinstance(en, int) and isinstance(st, int)) else max(en, st)
     else:
         en = a.n
-    return mk([a.slice(st, en)])
+    return canon_slice(I, mk([a.slice(simp(st), simp(en))]))
 
 
 @str_method("strip")
